@@ -460,7 +460,8 @@ def sample_match(rng, sexp_tokens, maxlen=40):
             cands = [b for b in ALPHA if f(b)] or allc
             if allc and rng.chance(1, 3):
                 # the extreme members of the set: lowest, highest, high/low nibble F or 0, and the other case of letters
-                ext = [allc[0], allc[-1]] + [b for b in allc if b & 0x0F in (0, 15) or b >> 4 in (0, 15)][:8] + [b for b in allc if chr(b) in "zZaA"]
+                ext = [allc[0], allc[-1]] + [b for b in allc if b & 0x0F in (0, 15) or b >> 4 in (0, 15)][:8] + [b for b in allc if chr(b) in "zZaA\n\r"] + \
+                      [b for b in allc if b >= 0x80][:2]
                 return bytes([rng.choice(ext)])
             return bytes([rng.choice(cands)]) if cands else b""
         if k in ("cat", "alt"):
@@ -544,3 +545,12 @@ def has_looped_nullable_rep(e):
     if e[0] == "rep" and e[2] >= 3 and nullable(e[1]):
         return True
     return any(has_looped_nullable_rep(x) for x in e[1:] if isinstance(x, tuple))
+
+
+def has_unbounded_nullable_rep(e):
+    """star / plus / {n,} over a body that can match the empty string (and is not purely zero-width): known to exhaust the fibers"""
+    if not isinstance(e, tuple):
+        return False
+    if (e[0] in ("star", "plus") or (e[0] == "rep" and e[3] is None)) and nullable(e[1]):
+        return True
+    return any(has_unbounded_nullable_rep(x) for x in e[1:] if isinstance(x, tuple))
